@@ -44,6 +44,7 @@ type cfg struct {
 	k      int
 	chunk  int // peer read size (0: everything)
 	w1, w2 []call
+	inOpen bool // w1 runs inside the open handler
 	p, d   int
 	large  bool
 }
@@ -54,6 +55,9 @@ func (c cfg) name() string {
 		t = "unix"
 	}
 	s := fmt.Sprintf("%s %s K=%d chunk=%d w1=%v", t, c.mode, c.k, c.chunk, c.w1)
+	if c.inOpen {
+		s += " in-open-handler"
+	}
 	if len(c.w2) > 0 {
 		s += fmt.Sprintf(" w2=%v", c.w2)
 	}
@@ -99,20 +103,6 @@ func body(c cfg) func() {
 		closed := false
 		var closeErr error
 		g.OnClose(func(_ *nbio.Conn, err error) { closed = true; closeErr = err })
-		if _, err := g.AddConn(conn); err != nil {
-			vsched.Fail("harness|AddConn: %v", err)
-			return
-		}
-		vsched.GoNamed("peer", func() {
-			vsched.SetDaemon()
-			for {
-				peer.WaitReadable()
-				if peer.Queued() == 0 {
-					return
-				}
-				peer.Read(c.chunk)
-			}
-		})
 		var log vsched.Obj
 		seq := 0
 		tick := func() int {
@@ -164,7 +154,28 @@ func body(c cfg) func() {
 				r.retAt = tick()
 			}
 		}
-		vsched.GoNamed("writer1", func() { run(1, c.w1) })
+		if c.inOpen {
+			// the first writer's calls are issued inside the open handler, i.e. before the
+			// descriptor is registered with its poller
+			g.OnOpen(func(*nbio.Conn) { run(1, c.w1) })
+		}
+		if _, err := g.AddConn(conn); err != nil {
+			vsched.Fail("harness|AddConn: %v", err)
+			return
+		}
+		vsched.GoNamed("peer", func() {
+			vsched.SetDaemon()
+			for {
+				peer.WaitReadable()
+				if peer.Queued() == 0 {
+					return
+				}
+				peer.Read(c.chunk)
+			}
+		})
+		if !c.inOpen {
+			vsched.GoNamed("writer1", func() { run(1, c.w1) })
+		}
 		if len(c.w2) > 0 {
 			vsched.GoNamed("writer2", func() { run(2, c.w2) })
 		}
@@ -316,6 +327,12 @@ func build(tier string) []*vkit.Scenario {
 						}
 					}
 				}
+			}
+			// calls issued before the registration (inside the open handler), alone and with a
+			// second writer that starts afterwards
+			for _, a := range []call{W(K + 2), V(2, K+1), S(1, 4, 6)} {
+				add(cfg{unix: unix, mode: m, k: K, chunk: 0, w1: []call{a, W(1)}, inOpen: true, p: 2, d: 1})
+				add(cfg{unix: unix, mode: m, k: K, chunk: 0, w1: []call{a}, w2: []call{W(2)}, inOpen: true, p: 2, d: 1})
 			}
 			// two concurrent writers: calls must not interleave
 			for _, a := range []call{W(K + 2), V(2, 3)} {
